@@ -325,6 +325,26 @@ def one_call(ctx: Ctx, geom, ml, c, tag="random", params=None):
     if impl_init != init or not bias_shapes_ok:
         full["impl_init"] = impl_init; full["model_init"] = init
         ctx.violation("correspondence", "constructor (weight/bias shapes, missing_filter, stored use_bias) differs from initShapes", full)
+    # ---- the layer AS CONSTRUCTED (its weight dicts still in target_keys order; eqx.tree_at / jit / an optimiser
+    # update rebuild them in sorted key order) against the same layer after a pytree round trip: same parameter
+    # values, so the defining sum gives the same blocks; a difference means one of the two is not that sum
+    if c.get("fresh_check") or ctx.rng.random() < 0.34:
+        import jax
+        try:
+            fresh = run_impl(geom, layer0, c["x_blocks"], D, c["torus"])
+            rt = run_impl(geom, jax.tree_util.tree_map(lambda a: a, layer0), c["x_blocks"], D, c["torus"])
+            ok = [k for k, _ in fresh] == [k for k, _ in rt] and all(
+                a.shape == b.shape and np.allclose(a, b, rtol=1e-4, atol=1e-4 * (1 + float(np.max(np.abs(b), initial=0))))
+                for (_, a), (_, b) in zip(fresh, rt))
+            what = (f"blocks {[list(k) for k, _ in fresh]} as constructed, {[list(k) for k, _ in rt]} after a pytree round trip"
+                    if [k for k, _ in fresh] != [k for k, _ in rt] else "same keys, different values")
+        except Exception as e:  # noqa: BLE001
+            ok, what = False, f"raised {type(e).__name__}: {str(e)[:160]}"
+        ctx.hist("fresh_vs_roundtrip", ok)
+        if not ok:
+            ctx.violation("oracle", "the layer as constructed and the same layer (same parameter values) after a pytree round "
+                          "trip give different outputs, so one of them is not the defining sum: " + what,
+                          {**desc, "weights_order_as_constructed": [[list(s), [list(t) for t in d]] for s, d in layer0.weights.items()]})
     # ---- the call
     req = request(D, c["in_sig"], c["target"], c["bank"], W, B, c["bias"], c["opts"], c["x_blocks"], c["torus"])
     try:
@@ -496,6 +516,13 @@ def fixed_cases(ctx: Ctx, geom, jnp):
     for bias in BIASES:
         out.append(dict(D=2, in_sig=in_sig, target=[((1, 0), 3), ((0, 0), 1)], bank=b3, bias=bias, opts={"padding": None},
                         x_blocks=x, torus=[True, True], padkind="none", bankkind="invariant"))
+    # two target types of one tensor order requested NON-adjacently (a type of another order between them), on a
+    # freshly constructed layer: per-order grouping of the targets must not lose or merge either of them
+    for bias in ("auto", False):
+        out.append(dict(D=2, in_sig=in_sig, target=[((1, 0), 2), ((0, 0), 1), ((1, 1), 3)], bank=b3, bias=bias, fresh_check=True,
+                        opts={"padding": None}, x_blocks=x, torus=[True, True], padkind="none", bankkind="invariant"))
+        out.append(dict(D=2, in_sig=in_sig, target=[((0, 1), 1), ((1, 0), 2), ((0, 0), 3), ((1, 1), 1)], bank=b3, bias=bias, fresh_check=True,
+                        opts={"padding": None}, x_blocks=x, torus=[True, False], padkind="none", bankkind="invariant"))
     # D10 witness: the (0,1) target is only reachable from the second input type
     sub = geom.MultiImage({k: v for k, v in b3.items() if k != (0, 1)}, 2, True)
     out.append(dict(D=2, in_sig=in_sig, target=[((0, 1), 1), ((0, 0), 2)], bank=sub, bias="auto", opts={"padding": None},
